@@ -46,12 +46,13 @@ ASSUMPTIONS = [
     'gyr_noise is in deg/s and is scaled with the data to rad/s when in_degrees is False (the default NOISE_SIGMA is built '
     'with "* RAD2DEG" and the docstring says "then scaled to be in the same units as the gyroscope data")',
     'zero-noise exactness and noise identification: 1e-12 relative to |reference vector| + 6 sigma '
-    '(observed <= 2e-15); rotations vs R(q), unit norm: 1e-12 absolute (observed <= 7e-16)',
+    '(observed over the thorough tier <= 1.0e-15); rotations vs R(q), unit norm, given quaternions kept: 1e-12 absolute '
+    '(observed <= 4.5e-16)',
     'ang_pos vs quaternions: angle <= 1e-12 + 1e-13 / max(|cos pitch|, 1e-9) rad; the second term is the conditioning of '
-    'pitch = arcsin(.) used by any Euler extraction (observed <= 5e-15 away from the pole, 3e-8 at the pole)',
+    'pitch = arcsin(.) used by any Euler extraction (observed <= 2.4e-14 for |cos pitch| > 0.01, <= 2.9e-13 on the rows nearer the pole)',
     'gyro integration: reference integrator = exact exponential map with the rate held over each sample interval; '
     'ang_vel is 2 vec(q_{k-1}^* q_k)/dt, so by bi-invariance + triangle inequality the attitude error after k steps is '
-    '<= sum_{j<=k} (theta_j - 2 sin(theta_j/2)); verdict threshold 1.01 * that + 1e-9 rad (rounding observed <= 2e-13 rad)',
+    '<= sum_{j<=k} (theta_j - 2 sin(theta_j/2)); verdict threshold 1.01 * that + 1e-9 rad (observed excess over the rigorous bound <= 6e-15 rad)',
     'not demanded: a particular value or unit of the bias (only reported = applied), the value of ang_vel[0], that a '
     'requested non-zero mag_noise is honoured (only that the reported attribute is the applied one; replacements are counted '
     'in coverage class mag_noise:request-replaced)',
